@@ -264,7 +264,7 @@ theorem argvec_agrees (f : FuncDef) (hwf : wf f = true) (args : List ArgSpec) :
         simp only [Bool.or_eq_false_iff] at hc
         obtain ⟨⟨⟨hu, hd⟩, _⟩, _⟩ := hc
         intro e he
-        simp only [unknownName, List.any_eq_false, Bool.not_eq_true', Bool.not_eq_false'] at hu
+        simp only [unknownName, List.any_eq_false, Bool.not_eq_true'] at hu
         simp only [alreadySupplied, Bool.or_eq_false_iff, List.any_eq_false] at hd
         have h1 : e.1 ∈ paramNames f := by simpa using hu e he
         have h2 : e.1 ∉ (paramNames f).take (phases f (toCall args)).lead.length := by
